@@ -356,7 +356,9 @@ def execute(trace, ctx):
             ctx.violate("C13", "writer-raised", f"writer session raised {type(e).__name__}: {e}",
                         key=type(e).__name__)
             if focus == "C14":
-                # C14 needs a complete session; nothing to enumerate
+                # C14 needs a complete session; nothing to enumerate -- and a check that cannot enumerate must not stay green
+                ctx.violate("C14", "complete-file-rejected", f"no complete file to cut: the writer session raised "
+                                                             f"{type(e).__name__}: {e}", key="session")
                 return
             return
     ctx.op("session", "closed")
@@ -704,7 +706,17 @@ def check_abandoned(session, d, ctx, rng):
     declared = bool(session["declared"]) and rng.random() < 0.5
     k = rng.randint(1, n - 1) if (declared and n >= 2) else rng.randint(1, n)
     path = os.path.join(d, "abandoned.gro")
+    over_existing = declared and rng.random() < 0.6
     try:
+        if over_existing:
+            # the path already holds the COMPLETE file of an earlier, identical session (a new frame written over the old one)
+            f0 = GroFile(path, "w")
+            _configure(f0, session)
+            f0.natoms = n
+            for r in recs:
+                f0.writeline(list(r))
+            f0.close()
+            ctx.probe("writer_dropped_over_an_existing_complete_file")
         f = GroFile(path, "w")
         _configure(f, session)
         if declared:
